@@ -443,7 +443,11 @@ def run(ctx):
     ctx.require("ValueError" in d.get("exc_types", ()) and len(d.get("exc_types", ())) >= 2,
                 "expected ValueError and at least one other exception class, saw %s" % sorted(d.get("exc_types", ())))
     groups = set(d.get("groups", ()))
-    silent = sorted(g for g in groups if g not in d.get("groups_ok", ()) and g not in d.get("groups_dead", ()))
+    # "eks(empty salt)" is a single illegal-length probe: once the library refuses it (ValueError) it can never
+    # complete normally, which is the correct behaviour, not a vacuous entry point
+    refusal_only = {"eks(empty salt)"}
+    silent = sorted(g for g in groups if g not in d.get("groups_ok", ()) and g not in d.get("groups_dead", ())
+                    and g not in refusal_only)
     ctx.require(not silent, "entry points on which no case ever completed normally: %s" % silent[:8])
     ctx.require(a.n.get("deep_relocated", 0) > a.n.get("cases_deep_mode", 0), "deep mode relocated too few buffers")
     ctx.require(a.n.get("nontrivial", 0) > 0.8 * a.n.get("evaluations", 1), "too many cases made no native call")
